@@ -136,7 +136,10 @@ def r4_budget(ctx, F):
         return noref(v).fields()[-1:] == ('.max_crashes',)
     lt = edges_where(b, is_count, is_budget, 'lt', with_blocks=True)
     loose = edges_where(b, is_count, is_budget, 'le') + edges_where(b, is_count, is_budget, 'ne')
-    ok = bool(lt) and all(b.edges_dominate([e for (_bb, es) in lt for e in es], head.bb) for _ in (0,))
+    lt_edges = [e for (_bb, es) in lt for e in es]
+    # the budget test guards the whole loop, or each offer inside it (`filter(|..| can_crash && !crashed)`)
+    ok = bool(lt) and (b.edges_dominate(lt_edges, head.bb) or
+                       all(b.edges_dominate(lt_edges, i) for (i, st) in crash_sites))
     why = 'no comparison `count < max_crashes` guards the crash offers' + \
         (' (a non-strict / inequality comparison was found instead)' if loose and not lt else '')
     ctx.check(ok, rule, 'crash-offered-only-under-budget', b0,
@@ -190,15 +193,15 @@ def r4_budget(ctx, F):
     # only actors whose flag is false, keyed by the enumeration index
     okf = True
     for (i, st) in crash_sites:
-        idv = b.val(st['rv']['ops'][0])
-        c = b.call_at(idv.key) if idv.kind == 'call' else None
-        if c is None or not c.is_('From::from'):
+        idc = origins(b, st['rv']['ops'][0])
+        if not idc or not all(not isinstance(c, (str, tuple)) and c.is_('From::from') for c in idc):
             okf = False
             continue
-        org = origins(b, c.args[0])
-        if not org or not all(isinstance(o, tuple) and o[0] == 'proj' and o[1] is head and o[2][-1] == '0' and
-                              '1' not in o[2][1:] for o in org):
-            okf = False
+        for c in idc:
+            org = origins(b, c.args[0])
+            if not org or not all(isinstance(o, tuple) and o[0] == 'proj' and o[1] is head and o[2][-1] == '0' and
+                                  '1' not in o[2][1:] for o in org):
+                okf = False
     okn = False
     for sw in b.switches:
         if sw.kind != 'bool' or sw.bb not in body:
